@@ -36,7 +36,7 @@ TECHNIQUE = 'runtime monitoring: fault injection with location oracle over recor
 
 
 def plan(tier, seed):
-    ndocs = 64 if tier == 'quick' else 1400
+    ndocs = 160 if tier == 'quick' else 1400
     shards = 16 if tier == 'quick' else 48
     specs = []
     for s in range(shards):
